@@ -591,8 +591,12 @@ def r7_default_privacy(ctx, prog, rule_id='C06.R7'):
                     r.ok(g['qname'], site, '%s for %s (implicit class)' % (flag0, '/'.join(cls0)), file=g['file'], line=c['l'])
             elif flag0 in ('CK_TRUE', '1'):
                 r.ok(g['qname'], site, 'CK_TRUE', file=g['file'], line=c['l'])
+            elif flag0 in ('CK_FALSE', '0'):
+                # the evaluation above took CK_TRUE as what the callers hand in: with CK_FALSE every class that extractObjectInformation leaves alone is checked/encrypted as public
+                r.violation(g['qname'], site, 'the privacy flag starts as CK_FALSE here: for every class whose default extractObjectInformation does not set itself (data, private and secret keys, domain parameters) '
+                            'the object is checked and stored in clear as public while its stored CKA_PRIVATE defaults to %s' % ('true' if base_default else 'false'), file=g['file'], line=c['l'])
             else:
-                r.undecided(g['qname'], site, 'the flag handed to extractObjectInformation is not initialised to CK_TRUE at its declaration', file=g['file'], line=c['l'])
+                r.undecided(g['qname'], site, 'the flag handed to extractObjectInformation is not initialised to a constant at its declaration', file=g['file'], line=c['l'])
 
 
 def r8_reload(ctx, prog):
